@@ -42,6 +42,9 @@ struct W<'a> {
     // what the adversary has seen (for swaps / replays)
     seen_triples: Vec<(Vec<u8>, Vec<u8>, Vec<u8>)>,
     damaged_honest_ctx: bool,
+    /// a fixed share of the runs (by run number, so that every tier and every plan mix contains them) is given one very
+    /// large batch
+    force_big: Option<usize>,
     signer_pubs: Vec<Option<[u8; 32]>>,
     signer_seeds: Vec<Option<[u8; 32]>>,
     xpubs: Vec<Option<[u8; 32]>>,
@@ -748,6 +751,9 @@ impl<'a> W<'a> {
             // 2^16 multiscalar terms and more
             n = 33000;
         }
+        if let Some(big) = self.force_big.take() {
+            n = big;
+        }
         bump(&mut self.c, &format!("probe:batch_n={}", n));
         let q = 2 + self.rng.below(2) as u8;
         let nsign = 1 + self.rng.below(5) as usize;
@@ -1238,6 +1244,7 @@ pub fn generate(seed: u64, run: u64, focus: &str, thorough: bool) -> Plan {
         now: 0,
         seen_triples: Vec::new(),
         damaged_honest_ctx: false,
+        force_big: if run % 50 == 7 { Some([33000usize, 16400, 8200, 4100][(run / 50 % 4) as usize]) } else { None },
         signer_pubs: vec![None; 8],
         signer_seeds: vec![None; 8],
         xpubs: vec![None; 8],
